@@ -250,13 +250,28 @@ func runC07(c *Check, a *Analysis) {
 			used |= bits
 			c.Ob("R-UPGRADE-BITS", "(*upgrade)#"+f, um.Pos(), ok, det)
 		}
-		// constants fit their masks
-		for name, max := range map[string]int64{"closeStream": 3, "streaming": 2, "openStream": 1} {
-			obj := p.Root.Types.Scope().Lookup(name)
-			cst, _ := obj.(*types.Const)
-			ok := cst != nil && cst.Val().String() == fmt.Sprint(max) && max&rmask["Stream"] == max
-			c.Ob("R-UPGRADE-BITS", "const#"+name, um.Pos(), ok, ifs(!ok, "stream phase constant "+name+" changed or does not fit the Stream mask"))
+		// every constant the Stream field is compared with or assigned fits the mask
+		maxK := int64(0)
+		for _, fn := range p.Fns {
+			eachInstr(fn, func(in ssa.Instruction) {
+				switch x := in.(type) {
+				case *ssa.BinOp:
+					if isLoadOf(p.canon(x.X), "upgrade", "Stream") {
+						if k, ok := constInt(x.Y); ok && k > maxK {
+							maxK = k
+						}
+					}
+				case *ssa.Store:
+					if fr, _, ok := fieldOfAddr(x.Addr); ok && fr.Struct == "upgrade" && fr.Field == "Stream" {
+						if k, ok := constInt(x.Val); ok && k > maxK {
+							maxK = k
+						}
+					}
+				}
+			})
 		}
+		okc := maxK >= 3 && maxK&rmask["Stream"] == maxK && maxK <= rmask["Stream"]
+		c.Ob("R-UPGRADE-BITS", "const#stream phases fit the mask", um.Pos(), okc, ifs(!okc, fmt.Sprintf("the largest stream phase constant used is %d, mask %#x", maxK, rmask["Stream"])))
 	}
 
 	// ---- (5) size bound and capacity guards
